@@ -38,6 +38,23 @@ add("C16", "syntax", "exploration", "bounded-exhaustive enumeration + property-b
     "Token values are input slices at their offsets, increasing and non-overlapping with whitespace-only gaps, exact line numbers, finite stream, EOF at len(input) — on every class-alphabet string up to the bound and on generated programs / soup.",
     "Stream is read up to its first EOF or ERROR token only.", "DESIGN.md §4 C16")
 
+CACHE_NOTE = "The recording shell.Runner is the ground truth of execution; every run step is a fresh parse + file.New + SpokFile.Run (what a new process does); the reference model is a map task -> dependency snapshot at last observed success."
+add("C01", "runinproc", "exploration", "stateful property-based testing against a reference model (history generation + shrinking) plus bounded-exhaustive action sequences",
+    "Random histories (1-3 task programs mixing literal, glob and task dependencies; edits, reverts, deletes, multi-task / failing / forced runs, cache removal) and every action sequence up to length 4 (quick) / 6 (thorough) over three fixed two-task programs: no task is ever reported skipped unless its dependency snapshot equals the one of its last observed success.",
+    CACHE_NOTE, "DESIGN.md §4 C01")
+add("C02", "runinproc", "exploration", "stateful property-based testing against a reference model (converse predicate of C01) plus bounded-exhaustive action sequences",
+    "Same histories: an executed task in an unforced run never has inputs equal to its last success (unless tainted by a later failure or cache removal); tasks without file dependencies are never skipped.",
+    CACHE_NOTE + " After a failed run of a task both outcomes are accepted (don't-care).", "DESIGN.md §4 C02")
+add("C14", "runinproc", "exploration", "stateful property-based testing against a reference model with forced runs in every position",
+    "Same histories with --force drawn with probability 1/2: forced runs report and execute every requested task, never skip; later unforced skips of tasks whose last success was forced satisfy the C01 condition.",
+    CACHE_NOTE + " Completeness of the transitive closure is C03's business and not re-judged here.", "DESIGN.md §4 C14")
+add("C03", "runinproc", "exploration", "bounded-exhaustive enumeration of dependency graphs x requests plus property-based sampling, validity-predicate oracle from reachability + DFS",
+    "Every edge set (incl. self-loops) on up to 3 (quick) / 4 (thorough) tasks x every request subset and extra orderings, repeated so that map iteration inside the sort varies; sampled graphs on 4-8 tasks with duplicates, undefined names, failing commands, file dependencies.",
+    "Reference: reachability and DFS cycle test over the declared edges. Cycles unreachable from the request are a don't-care (error or normal run).", "DESIGN.md §4 C03")
+add("C05", "runinproc", "exploration", "bounded-exhaustive enumeration of directory trees x patterns against a reference matcher over a full walk (differential), plus property-based random trees",
+    "Every subset of a 10 (quick) / 12 (thorough) path pool x 22 patterns, expanded through parse -> file.New -> Run -> SpokFile.Globs twice; compared as sets of regular files with an independent matcher.",
+    "The reference matcher is cross-checked against doublestar.Match on the pattern set; symlinks are not generated.", "DESIGN.md §4 C05")
+
 NOT_YET = {}
 
 def main():
